@@ -12,10 +12,10 @@
 (* behaviour is one run of the small-step machine.  Invariants:            *)
 (*   SearchInv   on every state: bounds of the machine, tags only right of *)
 (*               the cursor, below-base flag = a below-base tag exists     *)
-(*   Agree       at the end: base of the machine = BaseClosed; the mark    *)
-(*               tags = MarkTagClosed; Order is the stable sort            *)
-(*   Design      at the end: DesignOK of the expected result               *)
-(*   Emit        at the end: one CASE line                                 *)
+(*   AtEnd       at the end of a run (one evaluation of tags and result):  *)
+(*               base of the machine = BaseClosed, machine = RunSearch,    *)
+(*               mark tags = MarkTagClosed, Order is the stable sort, all  *)
+(*               glyphs tagged; DesignOK of the result; one CASE line      *)
 (***************************************************************************)
 EXTENDS IndicReorder, Json
 
@@ -105,21 +105,6 @@ TailsRich(a, rich) ==
   { m \o h \o t : m \in Opt(a, "CM"), h \in HalantOrMatras(a, rich), t \in Mods(a) }
 
 Nk(a) == Opt(a, "N")
-\* heads by kind; U, D bound the units
-IsHead(a, kind, h, U, D) ==
-  \/ /\ kind = "consonant"
-     /\ \E pre \in Opt(a, "Repha") : \E u \in UnitSeqs(a, U, D) : \E x \in ConsSyms : \E nk \in Nk(a) :
-           h = pre \o u \o <<x>> \o nk
-  \/ /\ kind = "vowel"
-     /\ \E pre \in {<<>>, <<"Ra", "H">>} : \E nk \in Nk(a) : \E p \in PostSeqs(U, D) :
-           h = pre \o <<"V">> \o nk \o p
-  \/ /\ kind = "standalone"
-     /\ \E pre \in {<<"GB">>, <<"DC">>, <<"Ra", "H", "DC">>}
-                     \cup (IF Has(a, "Repha") THEN {<<"Repha", "GB">>} ELSE {}) :
-          \E nk \in Nk(a) : \E p \in PostSeqs(U, D) : h = pre \o nk \o p
-  \/ /\ kind = "broken"
-     /\ \E pre \in Opt(a, "Repha") : \E nk \in Nk(a) : \E p \in PostSeqs(U, D) : h = pre \o nk \o p
-
 Kinds == {"consonant", "vowel", "standalone", "broken"}
 
 \* bounds per tier: group A = long heads, poor tails, many fonts; group B = short heads, rich tails
@@ -127,11 +112,11 @@ Bounds ==
   [ tiny     |-> [scA |-> {"deva"}, uA |-> 1, dA |-> 1, fA |-> {"std"}, mA |-> {"indic2"},
                   scB |-> {"beng"}, uB |-> 1, dB |-> 0, fB |-> {"std"}, rich |-> FALSE],
     quick    |-> [scA |-> {"deva", "telu", "mlym"}, uA |-> 2, dA |-> 1,
-                  fA |-> {"none", "std", "prefra", "both"}, mA |-> Models,
-                  scB |-> Scripts, uB |-> 1, dB |-> 0, fB |-> {"std", "post"}, rich |-> FALSE],
-    thorough |-> [scA |-> Scripts, uA |-> 3, dA |-> 1,
-                  fA |-> DOMAIN FontTab, mA |-> Models,
-                  scB |-> Scripts, uB |-> 2, dB |-> 1, fB |-> {"std", "post", "prefra", "both"}, rich |-> TRUE] ]
+                  fA |-> {"std", "prefra", "both"}, mA |-> Models,
+                  scB |-> Scripts, uB |-> 1, dB |-> 0, fB |-> {"none", "post"}, rich |-> FALSE],
+    thorough |-> [scA |-> {"deva", "beng", "taml", "telu", "knda", "mlym"}, uA |-> 2, dA |-> 1,
+                  fA |-> {"none", "std", "prefra", "both", "post"}, mA |-> Models,
+                  scB |-> Scripts, uB |-> 1, dB |-> 0, fB |-> {"none", "std", "post"}, rich |-> TRUE] ]
 Bd == Bounds[Tier]
 
 Mk(a, m, f, k, s) == [sc |-> a, model |-> m, fn |-> f, kind |-> k, syms |-> s]
@@ -183,23 +168,28 @@ SearchInv ==
      \* "post-base forms have to follow below-base forms"
      /\ \A j, k \in DOMAIN G : (j < k /\ st.tag[j] = "postc") => st.tag[k] # "belowc"
 
-Agree ==
-  st.done =>
-    /\ st.base = BaseClosed(c.sc, F, G)
-    /\ st = RunSearch(c.sc, F, G, Search0(c.sc, F, G))
-    /\ st.base # 0 =>
-         LET tag == AllTags(c.sc, F, G, st)
-         IN /\ \A k \in DOMAIN G : IsRem(G[k]) => tag[k] = MarkTagClosed(G, tag, st.base, k)
-            /\ IsStableSort(tag, Order(tag))
-            /\ FullyTagged(c.sc, F, G, st)
-
-Design == st.done => DesignOK(c.sc, c.model, Tok, ResultFrom(c.sc, c.model, F, Tok, st))
-
-Cps == [i \in DOMAIN c.syms |-> Alpha[c.sc][c.syms[i]]]
 FontJson(f) == [rphf |-> f.rphf, blwf |-> SetToSeq(f.blwf), pstf |-> SetToSeq(f.pstf), pref |-> SetToSeq(f.pref)]
-Emit ==
+Cps == [i \in DOMAIN c.syms |-> Alpha[c.sc][c.syms[i]]]
+\* everything checked at the end of a run shares one evaluation of the tags and of the result
+AtEnd ==
   st.done =>
-    PrintT(<<"CASE", ToJson([sc |-> c.sc, m |-> c.model, fn |-> c.fn, f |-> FontJson(F), k |-> c.kind,
-                             r |-> c.syms, c |-> Cps,
-                             e |-> ResultFrom(c.sc, c.model, F, Tok, st)])>>)
+    LET g   == TLCEval(G)
+        tok == TLCEval(Tok)
+        f   == F
+        tag == IF st.base = 0 THEN <<>> ELSE TLCEval(AllTags(c.sc, f, g, st))
+        res == TLCEval(ResultFromTags(c.sc, c.model, f, tok, st, tag))
+    IN \* Agree: small-step = closed forms
+       /\ st.base = BaseClosed(c.sc, f, g)
+       /\ st = RunSearch(c.sc, f, g, Search0(c.sc, f, g))
+       /\ st.base # 0 =>
+            /\ \A k \in DOMAIN g : IsRem(g[k]) => tag[k] = MarkTagClosed(g, tag, st.base, k)
+            /\ IsStableSort(tag, Order(tag))
+            /\ \A k \in DOMAIN g : tag[k] # "none"
+       /\ res = Expected(c.sc, c.model, f, c.kind, c.syms) \/ Tier # "tiny"
+       \* Design
+       /\ DesignOK(c.sc, c.model, tok, res)
+       \* Emit
+       /\ PrintT(<<"CASE", ToJson([sc |-> c.sc, m |-> c.model, fn |-> c.fn, f |-> FontJson(f), k |-> c.kind,
+                                   r |-> c.syms, c |-> Cps, e |-> res])>>)
+
 =============================================================================
